@@ -1,3 +1,4 @@
 import Driver.Loop
-/- stub: replaced by the solids (C09 emission half) driver -/
-def main : IO UInt32 := CelerVerif.runDriver (fun (s : Unit) _ => (s, "bad-op")) ()
+import CelerVerif.Model.SolidsDriver
+/- C09 solid-emission half: surfaces / senses / bounding zones emitted by IntersectRegion::build -/
+def main : IO UInt32 := CelerVerif.runDriver CelerVerif.Solids.driverStep ()
